@@ -210,13 +210,19 @@ class _Worker:
         self.rbuf = b""
 
     def stderr_tail(self):
+        """the panic line and the first frames, plus the end, of what the dead worker wrote"""
         try:
             self.errf.seek(0, 2)
             n = self.errf.tell()
-            self.errf.seek(max(0, n - 4000))
-            return self.errf.read().decode("utf-8", "replace")
+            self.errf.seek(max(0, n - 200000))
+            t = self.errf.read().decode("utf-8", "replace")
         except Exception:
             return ""
+        k = t.find("panic:")
+        if k < 0:
+            k = t.find("fatal error:")
+        head = t[k:k + 1800] if k >= 0 else t[:600]
+        return head + ("\n...\n" + t[-700:] if len(t) > k + 2500 else "")
 
     def run_chunk(self, reqs, timeout):
         """Pipeline reqs through the worker.  Returns list of responses (same order).
@@ -410,7 +416,7 @@ def _sig_match(sig, feat):
 # --------------------------------------------------------------------------------------
 # reporting
 
-UNGROUPED = {"src", "index", "case", "program", "seed", "id", "ops"}
+UNGROUPED = {"src", "index", "case", "program", "seed", "id", "ops", "ctxs", "depth", "throw_depth", "exit_inside_try", "exit_inside_catch", "has_call", "has_dflt", "a", "template", "ending"}
 
 
 class Report:
@@ -419,6 +425,12 @@ class Report:
         self.level = level
         self.t0 = time.time()
         self.findings = load_findings(prop)
+        import glob as _glob
+        for f in _glob.glob(os.path.join(VERIF, "replays", prop + "-*.json")):
+            try:
+                os.remove(f)
+            except OSError:
+                pass
         self.known_hits = {}     # finding id -> (count, example)
         self.violations = []     # (features, detail)
         self.cov = {"states": 0, "transitions": 0, "traces_validated_against_impl": 0, "evaluations": 0,
